@@ -279,3 +279,27 @@ def parse_tla_set_of_pairs(text):
             a = int(a)
         out.append((a, m.group(2)))
     return out
+
+
+# ------------------------------------------------------------------------------------------
+# Apalache (symbolic; used for the unbounded inductive invariant of the chunk generator)
+# ------------------------------------------------------------------------------------------
+
+def apalache(module_path, workdir, init, inv, length, expect_error=False, timeout=900):
+    """Run `apalache-mc check`. Returns the wall time. Raises MachineryError unless the outcome is the
+    expected one (NoError, or Error when a refutation is expected as a vacuity guard)."""
+    workdir = Path(workdir) / 'apalache'
+    workdir.mkdir(parents=True, exist_ok=True)
+    cmd = ['apalache-mc', 'check', '--init=' + init, '--inv=' + inv, '--length=%d' % length,
+           '--out-dir=' + str(workdir), str(module_path)]
+    t0 = time.time()
+    try:
+        p = subprocess.run(cmd, cwd=str(workdir), stdout=subprocess.PIPE, stderr=subprocess.STDOUT, timeout=timeout)
+    except (subprocess.TimeoutExpired, OSError) as e:
+        raise MachineryError('apalache failed to run: %s' % e)
+    out = p.stdout.decode('utf-8', 'replace')
+    ok = 'The outcome is: NoError' in out
+    err = 'The outcome is: Error' in out
+    if (expect_error and not err) or (not expect_error and not ok):
+        raise MachineryError('apalache %s %s: unexpected outcome\n%s' % (init, inv, out[-1500:]))
+    return time.time() - t0
